@@ -33,10 +33,12 @@ import (
 	"context"
 	"errors"
 	"fmt"
+	"reflect"
 	"runtime"
 	"sort"
 	"strconv"
 	"strings"
+	"sync"
 	"time"
 
 	"github.com/hashicorp/go-hclog"
@@ -67,15 +69,21 @@ type svcDef struct {
 	name string
 	tags []string
 	eto  bool
+	// port: Port = port % 10000; port / 10000 = the other fields NodeService.IsSame compares, as bits:
+	// 1 Address, 2 Weights, 4 Meta, 8 Locality, 16 Connect.Native, 32 Kind=connect-proxy + Proxy
 	port int
 	ta   map[string]int
 }
+
+const portBits = 10000
 
 type chkDef struct {
 	sid    string
 	status int
 	sname  string
 	stags  []string
+	// rest: the remaining fields HealthCheck.IsSame compares, as bits: 1 Notes, 2 Name, 4 Definition
+	rest int
 }
 
 type chkItem struct {
@@ -111,12 +119,12 @@ func (d svcDef) enc() string {
 	return strings.Join([]string{hx.EncS(d.name), encTags(d.tags), hx.EncBool(d.eto), strconv.Itoa(d.port), encPlus(ta)}, ";")
 }
 func (d chkDef) enc() string {
-	return strings.Join([]string{hx.EncS(d.sid), strconv.Itoa(d.status), hx.EncS(d.sname), encTags(d.stags)}, ";")
+	return strings.Join([]string{hx.EncS(d.sid), strconv.Itoa(d.status), hx.EncS(d.sname), encTags(d.stags), strconv.Itoa(d.rest)}, ";")
 }
 func (d svcDef) equal(o svcDef) bool { return d.enc() == o.enc() }
 func (d chkDef) equal(o chkDef) bool { return d.enc() == o.enc() }
 func (d chkDef) coreEqual(o chkDef) bool {
-	return d.sid == o.sid && d.status == o.status
+	return d.sid == o.sid && d.status == o.status && d.rest == o.rest
 }
 
 func nilIfEmpty(ts []string) []string {
@@ -131,10 +139,30 @@ func mkService(id string, d svcDef) *structs.NodeService {
 		ID:                id,
 		Service:           d.name,
 		Tags:              nilIfEmpty(d.tags),
-		Port:              d.port,
+		Port:              d.port % portBits,
 		EnableTagOverride: d.eto,
 		Weights:           &structs.Weights{Passing: 1, Warning: 1},
 		EnterpriseMeta:    *structs.DefaultEnterpriseMetaInDefaultPartition(),
+	}
+	bits := d.port / portBits
+	if bits&1 != 0 {
+		ns.Address = "10.9.9.9"
+	}
+	if bits&2 != 0 {
+		ns.Weights = &structs.Weights{Passing: 2, Warning: 1}
+	}
+	if bits&4 != 0 {
+		ns.Meta = map[string]string{"m": "1"}
+	}
+	if bits&8 != 0 {
+		ns.Locality = &structs.Locality{Region: "r1"}
+	}
+	if bits&16 != 0 {
+		ns.Connect.Native = true
+	}
+	if bits&32 != 0 {
+		ns.Kind = structs.ServiceKindConnectProxy
+		ns.Proxy = structs.ConnectProxyConfig{DestinationServiceName: "db", Config: map[string]interface{}{"k": "v"}}
 	}
 	if len(d.ta) > 0 {
 		ns.TaggedAddresses = map[string]structs.ServiceAddress{}
@@ -147,6 +175,49 @@ func mkService(id string, d svcDef) *structs.NodeService {
 
 func svcOf(ns *structs.NodeService) svcDef {
 	d := svcDef{name: ns.Service, tags: append([]string(nil), ns.Tags...), eto: ns.EnableTagOverride, port: ns.Port}
+	bits, odd := 0, false
+	switch ns.Address {
+	case "":
+	case "10.9.9.9":
+		bits |= 1
+	default:
+		odd = true
+	}
+	switch {
+	case ns.Weights != nil && *ns.Weights == structs.Weights{Passing: 1, Warning: 1}:
+	case ns.Weights != nil && *ns.Weights == structs.Weights{Passing: 2, Warning: 1}:
+		bits |= 2
+	default:
+		odd = true
+	}
+	switch {
+	case len(ns.Meta) == 0:
+	case len(ns.Meta) == 1 && ns.Meta["m"] == "1":
+		bits |= 4
+	default:
+		odd = true
+	}
+	switch {
+	case ns.Locality == nil:
+	case *ns.Locality == structs.Locality{Region: "r1"}:
+		bits |= 8
+	default:
+		odd = true
+	}
+	if ns.Connect.Native {
+		bits |= 16
+	}
+	switch {
+	case ns.Kind == structs.ServiceKindTypical && ns.Proxy.DestinationServiceName == "" && len(ns.Proxy.Config) == 0:
+	case ns.Kind == structs.ServiceKindConnectProxy && ns.Proxy.DestinationServiceName == "db" && len(ns.Proxy.Config) == 1 && fmt.Sprint(ns.Proxy.Config["k"]) == "v":
+		bits |= 32
+	default:
+		odd = true
+	}
+	if odd || ns.Port >= portBits || ns.SocketPath != "" || len(ns.Ports) != 0 {
+		bits = 99
+	}
+	d.port += portBits * bits
 	if len(ns.TaggedAddresses) > 0 {
 		d.ta = map[string]int{}
 		for k, v := range ns.TaggedAddresses {
@@ -157,7 +228,7 @@ func svcOf(ns *structs.NodeService) svcDef {
 }
 
 func mkCheck(id string, d chkDef) *structs.HealthCheck {
-	return &structs.HealthCheck{
+	hc := &structs.HealthCheck{
 		Node:           nodeName,
 		CheckID:        types.CheckID(id),
 		Name:           "chk-" + id,
@@ -168,6 +239,16 @@ func mkCheck(id string, d chkDef) *structs.HealthCheck {
 		ServiceTags:    nilIfEmpty(d.stags),
 		EnterpriseMeta: *structs.DefaultEnterpriseMetaInDefaultPartition(),
 	}
+	if d.rest&1 != 0 {
+		hc.Notes = "n1"
+	}
+	if d.rest&2 != 0 {
+		hc.Name = "alt-" + id
+	}
+	if d.rest&4 != 0 {
+		hc.Definition.Interval = 10 * time.Second
+	}
+	return hc
 }
 
 func chkOf(hc *structs.HealthCheck) chkDef {
@@ -182,7 +263,117 @@ func chkOf(hc *structs.HealthCheck) chkDef {
 	} else {
 		st = 99
 	}
-	return chkDef{sid: hc.ServiceID, status: st, sname: hc.ServiceName, stags: append([]string(nil), hc.ServiceTags...)}
+	d := chkDef{sid: hc.ServiceID, status: st, sname: hc.ServiceName, stags: append([]string(nil), hc.ServiceTags...)}
+	id := string(hc.CheckID)
+	switch hc.Notes {
+	case "":
+	case "n1":
+		d.rest |= 1
+	default:
+		d.rest |= 1000
+	}
+	switch hc.Name {
+	case "chk-" + id:
+	case "alt-" + id:
+		d.rest |= 2
+	default:
+		d.rest |= 2000
+	}
+	switch {
+	case reflect.DeepEqual(hc.Definition, structs.HealthCheckDefinition{}):
+	case reflect.DeepEqual(hc.Definition, structs.HealthCheckDefinition{Interval: 10 * time.Second}):
+		d.rest |= 4
+	default:
+		d.rest |= 4000
+	}
+	return d
+}
+
+// ---------------------------------------------------------------- node info
+//
+// The node-level information updateSyncState compares (ID, TaggedAddresses, Locality, Meta) is one
+// abstract value v = m + 10*id + 20*ta + 40*loc:  m = node meta "v" (0..9), id 0 = the agent's node
+// ID / 1 = no ID, ta 0 = {lan} / 1 = {lan, wan}, loc 0 = none / 1 = region r1. The node's Address is
+// held constant (updateSyncState does not compare it).
+
+func nodeTA(v int) map[string]string {
+	if (v/20)%2 == 1 {
+		return map[string]string{"lan": nodeAddr, "wan": "1.2.3.4"}
+	}
+	return map[string]string{"lan": nodeAddr}
+}
+func nodeIDOf(v int) types.NodeID {
+	if (v/10)%2 == 1 {
+		return ""
+	}
+	return nodeID
+}
+func nodeLoc(v int) *structs.Locality {
+	if (v/40)%2 == 1 {
+		return &structs.Locality{Region: "r1"}
+	}
+	return nil
+}
+func nodeMeta(v int) map[string]string { return map[string]string{"v": strconv.Itoa(v % 10)} }
+
+func nodeValOf(n *structs.Node) int {
+	v := 0
+	m, err := strconv.Atoi(n.Meta["v"])
+	if err != nil || len(n.Meta) != 1 || m < 0 || m > 9 {
+		return 9999
+	}
+	v += m
+	switch n.ID {
+	case nodeID:
+	case "":
+		v += 10
+	default:
+		return 9999
+	}
+	switch {
+	case reflect.DeepEqual(n.TaggedAddresses, nodeTA(0)):
+	case reflect.DeepEqual(n.TaggedAddresses, nodeTA(20)):
+		v += 20
+	default:
+		return 9999
+	}
+	switch {
+	case n.Locality == nil:
+	case *n.Locality == structs.Locality{Region: "r1"}:
+		v += 40
+	default:
+		return 9999
+	}
+	if n.Address != nodeAddr {
+		return 9999
+	}
+	return v
+}
+
+// localityWritable: does the state store write a node registration that differs from the stored
+// node in its Locality only? As the code is it does not (ensureNodeTxn skips the write when
+// Node.IsSame, which ignores Locality) and the Lean model says the same (CV.AE.nodeWrite): a side
+// finding, not a C16 violation (the property speaks of services and checks). Should the store be
+// repaired one day, the probe keeps the check quiet: locality drift and the scripted witness are
+// compared with the model only while the store behaves as modelled.
+var localityWritable bool
+
+func probeLocality() bool {
+	w := &world{f: newFSM(), idx: 10, faults: map[string]string{}}
+	reg := func(v int) {
+		err := w.serverRegister(&structs.RegisterRequest{Datacenter: "dc1", ID: nodeID, Node: nodeName, Address: nodeAddr,
+			TaggedAddresses: nodeTA(v), NodeMeta: nodeMeta(v), Locality: nodeLoc(v), WriteRequest: structs.WriteRequest{Token: "drift"}})
+		if err != nil {
+			panic(err)
+		}
+	}
+	reg(1)
+	reg(41)
+	_, n, err := w.store().GetNode(nodeName, nil, "")
+	if err != nil || n == nil {
+		panic("probeLocality")
+	}
+	return nodeValOf(n) == 41
 }
 
 // ---------------------------------------------------------------- snapshots of both sides
@@ -273,6 +464,16 @@ type call struct {
 	injected string
 	piggy   []string
 	withSvc string
+	tok     string // token of the request
+	skip    bool   // RegisterRequest.SkipNodeUpdate
+}
+
+func (c call) enc() string {
+	pg := make([]string, len(c.piggy))
+	for i, k := range c.piggy {
+		pg[i] = hx.EncS(k)
+	}
+	return strings.Join([]string{c.kind, hx.EncS(c.id), hx.EncS(c.tok), hx.EncBool(c.skip), encPlus(pg), hx.EncS(c.withSvc)}, "!")
 }
 
 type world struct {
@@ -330,19 +531,18 @@ func newWorldFull(run *hx.Run, nodeVal int, cfgTok, userTok string, aclMode bool
 		Datacenter:          "dc1",
 		NodeID:              nodeID,
 		NodeName:            nodeName,
-		TaggedAddresses:     map[string]string{"lan": nodeAddr},
+		TaggedAddresses:     nodeTA(nodeVal),
 	}, hclog.NewNullLogger(), tokens)
 	w.tokens = tokens
 	w.st.TriggerSyncChanges = func() {}
 	w.st.Delegate = w
-	if err := w.st.LoadMetadata(map[string]string{"v": strconv.Itoa(nodeVal)}); err != nil {
+	if nodeVal%20 >= 10 || nodeVal >= 40 {
+		panic("the agent's own node value has the real node ID and no locality")
+	}
+	if err := w.st.LoadMetadata(nodeMeta(nodeVal)); err != nil {
 		panic(err)
 	}
-	if w.cui {
-		w.line(fmt.Sprintf("reset %d %s %s 1", nodeVal, hx.EncS(cfgTok), hx.EncS(userTok)), "ok")
-	} else {
-		w.line(fmt.Sprintf("reset %d %s %s", nodeVal, hx.EncS(cfgTok), hx.EncS(userTok)), "ok")
-	}
+	w.line(fmt.Sprintf("reset %d %s %s %s %s", nodeVal, hx.EncS(cfgTok), hx.EncS(userTok), hx.EncBool(w.cui), hx.EncS(agentTok)), "ok")
 	return w
 }
 
@@ -479,14 +679,14 @@ func (w *world) RPC(_ context.Context, method string, args interface{}, reply in
 		if o == "" {
 			o = "ok"
 		}
-		w.calls = append(w.calls, call{kind: "rs", outcome: o})
+		req := args.(*structs.NodeSpecificRequest)
+		w.calls = append(w.calls, call{kind: "rs", outcome: o, tok: req.Token})
 		if o == "fail" {
 			return w.failErr()
 		}
-		if o == "nomethod" {
+		if o == "nomethod" || o == "nomethod-fail" {
 			return errors.New("rpc: can't find method Catalog.NodeServiceList")
 		}
-		req := args.(*structs.NodeSpecificRequest)
 		_, nsl, err := w.store().NodeServiceList(nil, req.Node, &req.EnterpriseMeta, req.PeerName)
 		if err != nil {
 			return err
@@ -497,6 +697,10 @@ func (w *world) RPC(_ context.Context, method string, args interface{}, reply in
 		return nil
 	case "Catalog.NodeServices":
 		req := args.(*structs.NodeSpecificRequest)
+		if w.faults["rs"] == "nomethod-fail" {
+			w.calls[len(w.calls)-1].outcome = "fail"
+			return w.failErr()
+		}
 		_, ns, err := w.store().NodeServices(nil, req.Node, &req.EnterpriseMeta, req.PeerName)
 		if err != nil {
 			return err
@@ -508,11 +712,11 @@ func (w *world) RPC(_ context.Context, method string, args interface{}, reply in
 		if o == "" {
 			o = "ok"
 		}
-		w.calls = append(w.calls, call{kind: "rc", outcome: o})
+		req := args.(*structs.NodeSpecificRequest)
+		w.calls = append(w.calls, call{kind: "rc", outcome: o, tok: req.Token})
 		if o == "fail" {
 			return w.failErr()
 		}
-		req := args.(*structs.NodeSpecificRequest)
 		_, hcs, err := w.store().NodeChecks(nil, req.Node, &req.EnterpriseMeta, req.PeerName)
 		if err != nil {
 			return err
@@ -521,7 +725,7 @@ func (w *world) RPC(_ context.Context, method string, args interface{}, reply in
 		return nil
 	case "Catalog.Register":
 		req := args.(*structs.RegisterRequest)
-		c := call{}
+		c := call{tok: req.Token, skip: req.SkipNodeUpdate}
 		var key string
 		switch from {
 		case "syncNodeInfo":
@@ -570,7 +774,7 @@ func (w *world) RPC(_ context.Context, method string, args interface{}, reply in
 		return err
 	case "Catalog.Deregister":
 		req := args.(*structs.DeregisterRequest)
-		c := call{}
+		c := call{tok: req.Token}
 		var key string
 		switch from {
 		case "deleteService":
@@ -650,10 +854,7 @@ func (w *world) snapshot() snap {
 		panic(err)
 	}
 	if node != nil {
-		s.cnode = node.Meta["v"]
-		if s.cnode == "" {
-			s.cnode = "99"
-		}
+		s.cnode = strconv.Itoa(nodeValOf(node))
 	}
 	_, nsl, err := w.store().NodeServiceList(nil, nodeName, structs.DefaultEnterpriseMetaInDefaultPartition(), "")
 	if err != nil {
@@ -735,10 +936,16 @@ func (w *world) panicCheck(res string, pre snap, svcID string, chkIDs []string) 
 }
 
 func (w *world) exec(o op) {
+	defer w.viewMonitor(o.kind)
 	run := w.run
 	switch o.kind {
 	case "addsvc":
 		pre := w.snapshot()
+		eid := o.id // addServiceLocked: an omitted id defaults to the service name
+		if eid == "" {
+			eid = o.sd.name
+			run.Tag("op:addsvc:id-omitted")
+		}
 		var ids []string
 		for _, c := range o.chks {
 			ids = append(ids, c.id)
@@ -751,10 +958,10 @@ func (w *world) exec(o op) {
 		}
 		res := guard(func() error { return w.st.AddServiceWithChecks(mkService(o.id, o.sd), hcs, o.tok, o.isLocal) })
 		run.Tag("op:addsvc:" + res)
-		if e, ok := pre.ls[o.id]; ok && e.live() && !e.inSync && !svcHeld(pre, o.id, e.d) && e.d.equal(o.sd) && res == "ok" {
+		if e, ok := pre.ls[eid]; ok && e.live() && !e.inSync && !svcHeld(pre, eid, e.d) && e.d.equal(o.sd) && res == "ok" {
 			run.Tag("identical-reregister-of-unsynced-service-marks-in-sync")
 		}
-		w.panicCheck(res, pre, o.id, ids)
+		w.panicCheck(res, pre, eid, ids)
 		w.line(fmt.Sprintf("addsvc %s %s %s %s %s", hx.EncS(o.id), o.sd.enc(), hx.EncS(o.tok), hx.EncBool(o.isLocal), hx.EncList(cs)), res+" "+w.snapshot().dump())
 	case "addchk":
 		pre := w.snapshot()
@@ -767,7 +974,12 @@ func (w *world) exec(o op) {
 		for _, k := range o.ids {
 			cids = append(cids, structs.NewCheckID(types.CheckID(k), nil))
 		}
-		res := guard(func() error { return w.st.RemoveServiceWithChecks(structs.NewServiceID(o.id, nil), cids) })
+		res := guard(func() error {
+			if len(cids) == 0 && len(o.id)%2 == 0 {
+				return w.st.RemoveService(structs.NewServiceID(o.id, nil))
+			}
+			return w.st.RemoveServiceWithChecks(structs.NewServiceID(o.id, nil), cids)
+		})
 		run.Tag("op:rmsvc:" + res)
 		w.line(fmt.Sprintf("rmsvc %s %s", hx.EncS(o.id), hx.EncSList(o.ids)), res+" "+w.snapshot().dump())
 	case "rmchk":
@@ -803,8 +1015,8 @@ func (w *world) exec(o op) {
 		w.line("drmchk "+hx.EncS(o.id), res+" "+w.snapshot().dump())
 	case "dnode":
 		res := guard(func() error {
-			return w.serverRegister(&structs.RegisterRequest{Datacenter: "dc1", ID: nodeID, Node: nodeName, Address: nodeAddr,
-				TaggedAddresses: map[string]string{"lan": nodeAddr}, NodeMeta: map[string]string{"v": strconv.Itoa(o.val)},
+			return w.serverRegister(&structs.RegisterRequest{Datacenter: "dc1", ID: nodeIDOf(o.val), Node: nodeName, Address: nodeAddr,
+				TaggedAddresses: nodeTA(o.val), NodeMeta: nodeMeta(o.val), Locality: nodeLoc(o.val),
 				WriteRequest: structs.WriteRequest{Token: "drift"}})
 		})
 		run.Tag("op:dnode:" + res)
@@ -844,6 +1056,7 @@ func (w *world) exec(o op) {
 		w.tokens.UpdateAgentToken(o.tok, token.TokenSourceAPI)
 		w.agentTok = o.tok
 		run.Tag("op:agent-token-changed")
+		w.line("agenttok "+hx.EncS(o.tok), "ok")
 	case "full", "partial":
 		w.sync(o)
 	default:
@@ -966,7 +1179,15 @@ func (w *world) sync(o op) {
 		}
 	}
 	run.Tag(fmt.Sprintf("op:%s:%s:%s", o.kind, map[bool]string{true: "clean", false: "faulty"}[clean], res))
-	w.line(fmt.Sprintf("%s %s %s %s", o.kind, encFaults(lineFaults), hx.EncSList(so), hx.EncSList(co)), res+" "+post.dump())
+	if lineFaults["rs"] == "nomethod-fail" {
+		lineFaults["rs"] = "fail"
+	}
+	var tr []string
+	for _, c := range calls {
+		tr = append(tr, c.enc())
+	}
+	w.line(fmt.Sprintf("%s %s %s %s", o.kind, encFaults(lineFaults), hx.EncSList(so), hx.EncSList(co)), res+" "+post.dump()+" T="+hx.EncList(tr))
+	w.tokenMonitor(calls, pre)
 	w.monitors(o.kind, pre, post, calls, clean, res)
 	w.probeTimers(o.kind + " sync")
 }
@@ -1088,6 +1309,18 @@ func (w *world) monitors(kind string, pre, post snap, calls []call, clean bool, 
 		if res != "ok" {
 			w.violate("converge:clean-full-sync-reports-error", "a full sync in which no RPC failed returned an error")
 		}
+		if want := strconv.Itoa(w.nodeVal); post.cnode != want {
+			if pv, err := strconv.Atoi(pre.cnode); err == nil && pv%40 == w.nodeVal%40 && pv/40 != w.nodeVal/40 && post.cnode == pre.cnode {
+				w.run.Tag("finding:node-info-locality-only-difference-is-never-written")
+			} else {
+				w.violate("converge:node-info-differs-after-clean-full-sync", fmt.Sprintf("after a clean full sync the catalog's node info is %s, the agent's %s (before the sync: %s; value = meta + 10*no-id + 20*tagged-addresses + 40*locality)", post.cnode, want, pre.cnode))
+			}
+		} else {
+			w.run.Tag("monitor:converge:node-info-checked")
+		}
+		if !post.nodeInSync {
+			w.violate("converge:node-info-left-out-of-sync", "node info is marked out of sync after a clean full sync")
+		}
 		for id, e := range post.ls {
 			switch {
 			case !e.live():
@@ -1095,7 +1328,11 @@ func (w *world) monitors(kind string, pre, post snap, calls []call, clean bool, 
 			case !e.inSync:
 				w.violateID("converge:service-left-out-of-sync", fmt.Sprintf("service %q is out of sync after a clean full sync", id), id, true, pre, post)
 			case !svcHeld(post, id, e.d):
-				w.violateID("converge:service-missing-or-different-in-catalog", fmt.Sprintf("service %q: catalog does not hold the local definition after a clean full sync", id), id, true, pre, post)
+				sig := "converge:service-missing-or-different-in-catalog"
+				if r, ok := post.cs[id]; ok && locOnly(r, e.d) {
+					sig = svcLocalitySig
+				}
+				w.violateID(sig, fmt.Sprintf("service %q: catalog does not hold the local definition after a clean full sync", id), id, true, pre, post)
 			}
 		}
 		for id := range post.cs {
@@ -1137,7 +1374,11 @@ func (w *world) monitors(kind string, pre, post snap, calls []call, clean bool, 
 					w.run.Tag("monitor:sound:refused-service-marked")
 					continue
 				}
-				w.violateID("sound:service-marked-in-sync-but-not-in-catalog", fmt.Sprintf("%s sync marked service %q in sync although the catalog does not hold it and no ACL refusal happened", kind, id), id, true, pre, post)
+				sig := "sound:service-marked-in-sync-but-not-in-catalog"
+				if r, ok := post.cs[id]; ok && locOnly(r, e.d) {
+					sig = svcLocalitySig
+				}
+				w.violateID(sig, fmt.Sprintf("%s sync marked service %q in sync although the catalog does not hold it and no ACL refusal happened", kind, id), id, true, pre, post)
 			}
 		}
 		for id, e := range post.lc {
@@ -1277,6 +1518,155 @@ func (w *world) monitors(kind string, pre, post snap, calls []call, clean bool, 
 	}
 }
 
+// tokenMonitor restates the token rules on the requests of one sync: node info, the two reads and
+// every deregistration carry the agent token; a registration carries the record's own token, else
+// the config-file registration token for a record from a config file, else the user token; a check
+// rides on a service registration only with the very same effective token.
+func (w *world) tokenMonitor(calls []call, pre snap) {
+	eff := func(tok string, isLocal bool) string {
+		switch {
+		case tok != "":
+			return tok
+		case isLocal && w.cfgTok != "":
+			return w.cfgTok
+		default:
+			return w.userTok
+		}
+	}
+	for _, c := range calls {
+		switch c.kind {
+		case "rs", "rc", "n", "sdel", "cdel":
+			w.run.Tag("monitor:token:agent-token-call")
+			if c.tok != w.agentTok {
+				w.violate("token:"+c.kind+"-call-does-not-carry-the-agent-token", fmt.Sprintf("%s call for %q carried token %q, the agent token is %q", c.kind, c.id, c.tok, w.agentTok))
+			}
+		case "sreg":
+			e, ok := pre.ls[c.id]
+			if !ok || e.ghost {
+				continue
+			}
+			w.run.Tag("monitor:token:service-registration")
+			if want := eff(e.tok, e.isLocal); c.tok != want {
+				w.violate("token:service-registered-with-another-token", fmt.Sprintf("service %q (token %q, from config file %v) was registered with token %q, expected %q", c.id, e.tok, e.isLocal, c.tok, want))
+			}
+			for _, k := range c.piggy {
+				if ce, ok := pre.lc[k]; ok && !ce.ghost {
+					w.run.Tag("monitor:token:piggy-backed-check")
+					if eff(ce.tok, ce.isLocal) != c.tok {
+						w.violate("token:check-rides-on-a-service-registration-with-another-token", fmt.Sprintf("check %q (effective token %q) was registered inside the request of service %q carrying token %q", k, eff(ce.tok, ce.isLocal), c.id, c.tok))
+					}
+				}
+			}
+		case "creg":
+			e, ok := pre.lc[c.id]
+			if !ok || e.ghost {
+				continue
+			}
+			w.run.Tag("monitor:token:check-registration")
+			if want := eff(e.tok, e.isLocal); c.tok != want {
+				w.violate("token:check-registered-with-another-token", fmt.Sprintf("check %q (token %q, from config file %v) was registered with token %q, expected %q", c.id, e.tok, e.isLocal, c.tok, want))
+			}
+		}
+	}
+}
+
+// viewMonitor: the public read accessors of local.State (what agent/agent.go and the HTTP API read)
+// must show exactly the records that are registered and not pending removal, with the stored
+// definitions, tokens and flags.
+func (w *world) viewMonitor(after string) {
+	s := w.snapshot()
+	bad := func(acc, desc string) {
+		w.violate("view:"+acc+"-disagrees-with-the-records", "after "+after+": "+desc)
+	}
+	wild := structs.WildcardEnterpriseMetaInDefaultPartition()
+	all, scoped, states := w.st.AllServices(), w.st.Services(wild), w.st.ServiceStates(wild)
+	nLive := 0
+	for id, e := range s.ls {
+		sid := structs.NewServiceID(id, nil)
+		if !w.st.ServiceExists(sid) {
+			bad("ServiceExists", fmt.Sprintf("record of service %q not reported", id))
+		}
+		if tok := w.st.ServiceToken(sid); tok != e.tok {
+			bad("ServiceToken", fmt.Sprintf("service %q token %q, record has %q", id, tok, e.tok))
+		}
+		ns, st := w.st.Service(sid), w.st.ServiceState(sid)
+		if !e.live() {
+			if ns != nil || st != nil || all[sid] != nil || scoped[sid] != nil || states[sid] != nil {
+				bad("Service", fmt.Sprintf("service %q is pending removal / a placeholder but still visible", id))
+			}
+			continue
+		}
+		nLive++
+		if ns == nil || !svcOf(ns).equal(e.d) || all[sid] == nil || !svcOf(all[sid]).equal(e.d) || scoped[sid] == nil || !svcOf(scoped[sid]).equal(e.d) {
+			bad("Service", fmt.Sprintf("service %q is registered but not (or differently) visible", id))
+		}
+		for _, x := range []*local.ServiceState{st, states[sid]} {
+			if x == nil || x.InSync != e.inSync || x.Token != e.tok || x.IsLocallyDefined != e.isLocal || x.Deleted || !svcOf(x.Service).equal(e.d) {
+				bad("ServiceState", fmt.Sprintf("service %q: state copy differs from the record", id))
+			}
+		}
+		byName := false
+		for _, x := range w.st.ServicesByName(structs.NewServiceName(e.d.name, nil)) {
+			byName = byName || x.ID == id
+		}
+		if !byName {
+			bad("ServicesByName", fmt.Sprintf("service %q not listed under its name %q", id, e.d.name))
+		}
+	}
+	if len(all) != nLive || len(scoped) != nLive || len(states) != nLive {
+		bad("AllServices", fmt.Sprintf("%d/%d/%d services listed, %d registered", len(all), len(scoped), len(states), nLive))
+	}
+	if w.st.Stats()["services"] != strconv.Itoa(nLive) {
+		bad("Stats", "service count "+w.st.Stats()["services"])
+	}
+	allC, scopedC, statesC, allStates := w.st.AllChecks(), w.st.Checks(wild), w.st.CheckStates(wild), w.st.AllCheckStates()
+	nLive = 0
+	perSvc := map[string]int{}
+	for id, e := range s.lc {
+		cid := structs.NewCheckID(types.CheckID(id), nil)
+		if tok := w.st.CheckToken(cid); tok != e.tok {
+			bad("CheckToken", fmt.Sprintf("check %q token %q, record has %q", id, tok, e.tok))
+		}
+		hc, st := w.st.Check(cid), w.st.CheckState(cid)
+		if !e.live() {
+			if hc != nil || st != nil || allC[cid] != nil || scopedC[cid] != nil || statesC[cid] != nil || allStates[cid] != nil {
+				bad("Check", fmt.Sprintf("check %q is pending removal / a placeholder but still visible", id))
+			}
+			continue
+		}
+		nLive++
+		perSvc[e.d.sid]++
+		if hc == nil || !chkOf(hc).equal(e.d) || allC[cid] == nil || !chkOf(allC[cid]).equal(e.d) || scopedC[cid] == nil || !chkOf(scopedC[cid]).equal(e.d) {
+			bad("Check", fmt.Sprintf("check %q is registered but not (or differently) visible", id))
+		}
+		for _, x := range []*local.CheckState{st, statesC[cid], allStates[cid]} {
+			if x == nil || x.InSync != e.inSync || x.Token != e.tok || x.IsLocallyDefined != e.isLocal || x.Deleted || !chkOf(x.Check).equal(e.d) || (x.DeferCheck != nil) != e.armed {
+				bad("CheckState", fmt.Sprintf("check %q: state copy differs from the record", id))
+			}
+		}
+	}
+	if len(allC) != nLive || len(scopedC) != nLive || len(statesC) != nLive || len(allStates) != nLive {
+		bad("AllChecks", fmt.Sprintf("%d/%d/%d/%d checks listed, %d registered", len(allC), len(scopedC), len(statesC), len(allStates), nLive))
+	}
+	if w.st.Stats()["checks"] != strconv.Itoa(nLive) {
+		bad("Stats", "check count "+w.st.Stats()["checks"])
+	}
+	for id, e := range s.ls {
+		if e.live() {
+			if n := len(w.st.ChecksForService(structs.NewServiceID(id, nil), false)); n != perSvc[id] {
+				bad("ChecksForService", fmt.Sprintf("%d checks listed for service %q, %d registered", n, id, perSvc[id]))
+			}
+			if n := len(w.st.ChecksForService(structs.NewServiceID(id, nil), true)); n != perSvc[id]+perSvc[""] {
+				bad("ChecksForService", fmt.Sprintf("%d checks (node checks included) listed for service %q, %d registered", n, id, perSvc[id]+perSvc[""]))
+			}
+		}
+	}
+	if m := w.st.Metadata(); !reflect.DeepEqual(m, nodeMeta(w.nodeVal)) {
+		bad("Metadata", fmt.Sprint(m))
+	}
+	w.run.Tag("monitor:view:checked")
+}
+
 // ---------------------------------------------------------------- generators
 
 var (
@@ -1289,7 +1679,100 @@ var (
 )
 
 func genSvcDef(r *hx.RNG) svcDef {
-	return svcDef{name: hx.Pick(r, namePool), tags: hx.Pick(r, tagPool), eto: r.Chance(30), port: 80 + r.Intn(2), ta: hx.Pick(r, taPool)}
+	d := svcDef{name: hx.Pick(r, namePool), tags: hx.Pick(r, tagPool), eto: r.Chance(30), port: 80 + r.Intn(2), ta: hx.Pick(r, taPool)}
+	if r.Chance(25) {
+		d.port += portBits * (1 << r.Intn(6))
+		if r.Chance(30) {
+			d.port = d.port%portBits + portBits*r.Intn(64)
+		}
+	}
+	return validSvc(d)
+}
+
+// validSvc: a connect proxy cannot also be connect-native (servicePreApply would reject it)
+func validSvc(d svcDef) svcDef {
+	if bits := d.port / portBits; bits&32 != 0 && bits&16 != 0 {
+		d.port -= portBits * 16
+	}
+	// the service Locality is varied in the compared stream only if the state store writes a
+	// registration that differs from the stored service in its Locality only (see svcLocalityWitness)
+	if bits := d.port / portBits; bits&8 != 0 && !svcLocalityWritable {
+		d.port -= portBits * 8
+	}
+	return d
+}
+
+const svcLocalitySig = "store:service-locality-only-difference-is-never-written"
+
+// locOnly: the two definitions differ in the service Locality and in nothing else
+func locOnly(a, b svcDef) bool {
+	if (a.port/portBits)&8 == (b.port/portBits)&8 {
+		return false
+	}
+	a.port -= portBits * ((a.port / portBits) & 8)
+	b.port -= portBits * ((b.port / portBits) & 8)
+	return a.equal(b)
+}
+
+// svcLocalityWritable: does ensureServiceTxn write a service registration that differs from the
+// stored one in its Locality only? It does since /repo commit d3de336 (ServiceNode.IsSameService
+// compares ServiceLocality); on a tree without that repair the probe keeps the service Locality out
+// of the compared stream (the model writes every registered definition).
+var svcLocalityWritable bool
+
+func probeSvcLocality() bool {
+	w := &world{f: newFSM(), idx: 10, faults: map[string]string{}}
+	for _, p := range []int{80, 80 + 8*portBits} {
+		if err := w.serverRegister(w.driftReq(mkService("web", svcDef{name: "web", port: p}), nil)); err != nil {
+			panic(err)
+		}
+	}
+	_, nsl, err := w.store().NodeServiceList(nil, nodeName, structs.DefaultEnterpriseMetaInDefaultPartition(), "")
+	if err != nil || nsl == nil || len(nsl.Services) != 1 {
+		panic("probeSvcLocality")
+	}
+	return svcOf(nsl.Services[0]).port == 80+8*portBits
+}
+
+// svcLocalityWitness (regression scenario, monitor only): a service is re-registered locally with a
+// Locality (nothing else changes). Before /repo commit d3de336 the agent saw the difference
+// (NodeService.IsSame compares Locality), registered the service, Catalog.Register succeeded and the
+// state store dropped the write because ServiceNode.IsSameService did not look at ServiceLocality
+// (nor ServiceSocketPath): the catalog never converged and the service was marked in sync although
+// the catalog did not hold it (signature svcLocalitySig). Since the repair the monitors stay silent.
+func svcLocalityWitness(run *hx.Run) {
+	w := newWorld(run, 1, "", "")
+	w.silent = true
+	w.exec(op{kind: "addsvc", id: "web", sd: svcDef{name: "web", port: 80}})
+	w.exec(op{kind: "full"})
+	w.exec(op{kind: "addsvc", id: "web", sd: svcDef{name: "web", port: 80 + 8*portBits}})
+	w.exec(op{kind: "full"})
+	w.exec(op{kind: "full"})
+	run.Tag("scripted:service-locality-only-change(regression, monitor-only)")
+	run.Case("service-locality-only-change", true)
+}
+
+// flipSvcField changes exactly one of the fields that `port` stands for
+func flipSvcField(r *hx.RNG, d svcDef) svcDef {
+	e0 := d
+	if r.Chance(30) {
+		d.port = d.port - d.port%2 + (1 - d.port%2)
+		return d
+	}
+	bits := d.port / portBits
+	bits ^= 1 << r.Intn(6)
+	d.port = d.port%portBits + portBits*bits
+	if v := validSvc(d); v.port != d.port { // flipped into an invalid combination: flip the port instead
+		d.port = e0.port - e0.port%2 + (1 - e0.port%2)
+	}
+	return d
+}
+
+func genRest(r *hx.RNG) int {
+	if r.Chance(75) {
+		return 0
+	}
+	return r.Intn(8)
 }
 
 func pickLive[V interface{ live() bool }](r *hx.RNG, m map[string]V) (string, bool) {
@@ -1316,6 +1799,8 @@ func genFaults(r *hx.RNG, s snap) map[string]string {
 		f["rs"] = "fail"
 	} else if r.Chance(6) {
 		f["rs"] = "nomethod"
+	} else if r.Chance(3) {
+		f["rs"] = "nomethod-fail"
 	}
 	if r.Chance(6) {
 		f["rc"] = "fail"
@@ -1390,16 +1875,19 @@ func (w *world) genOp(r *hx.RNG) op {
 		if e, ok := s.ls[id]; ok && !e.ghost && r.Chance(35) {
 			d = e.d // identical re-registration
 			if r.Chance(50) {
-				d.port++
+				d = flipSvcField(r, d)
 			}
 		}
 		o := op{kind: "addsvc", id: id, sd: d, tok: hx.Pick(r, tokPool), isLocal: r.Chance(25)}
+		if r.Chance(4) {
+			o.id, id = "", d.name // id omitted: registered under its name
+		}
 		for n := r.Intn(3); n > 0; n-- {
 			k := hx.Pick(r, chkPool[:4])
 			if r.Chance(40) {
 				k = "service:" + id
 			}
-			cd := chkDef{sid: id, status: r.Intn(6), sname: d.name, stags: d.tags}
+			cd := chkDef{sid: id, status: r.Intn(6), sname: d.name, stags: d.tags, rest: genRest(r)}
 			if r.Chance(6) {
 				cd.sid = hx.Pick(r, svcPool) // malformed: bound to another service
 			}
@@ -1408,7 +1896,7 @@ func (w *world) genOp(r *hx.RNG) op {
 		return o
 	case x < 30: // register a check, as agent.AddCheck does (service must be registered)
 		k := hx.Pick(r, chkPool)
-		cd := chkDef{status: r.Intn(6)}
+		cd := chkDef{status: r.Intn(6), rest: genRest(r)}
 		if sid, ok := pickLive(r, s.ls); ok && r.Chance(65) {
 			cd.sid, cd.sname, cd.stags = sid, s.ls[sid].d.name, s.ls[sid].d.tags
 		}
@@ -1417,6 +1905,9 @@ func (w *world) genOp(r *hx.RNG) op {
 		}
 		if e, ok := s.lc[k]; ok && !e.ghost && r.Chance(30) {
 			cd = e.d
+			if r.Chance(30) {
+				cd.rest ^= 1 << r.Intn(3) // same check, other notes / name / definition
+			}
 		}
 		return op{kind: "addchk", id: k, cd: cd, tok: hx.Pick(r, tokPool), isLocal: r.Chance(25)}
 	case x < 40: // deregister a service with its checks, as agent.removeServiceLocked does
@@ -1455,7 +1946,7 @@ func (w *world) genOp(r *hx.RNG) op {
 			case 0:
 				d.tags = hx.Pick(r, tagPool)
 			case 1:
-				d.port++
+				d = flipSvcField(r, d)
 			case 2:
 				d.ta = hx.Pick(r, taPool)
 			default:
@@ -1470,6 +1961,8 @@ func (w *world) genOp(r *hx.RNG) op {
 			cd = e.d
 			if r.Bool() {
 				cd.status = (cd.status + 1) % 6
+			} else if r.Chance(60) {
+				cd.rest ^= 1 << r.Intn(3) // drift of notes / name / definition only
 			}
 		}
 		if len(s.cs) > 0 && r.Chance(55) {
@@ -1494,7 +1987,17 @@ func (w *world) genOp(r *hx.RNG) op {
 		}
 		return op{kind: "drmchk", id: k}
 	case x < 81:
-		return op{kind: "dnode", val: r.Intn(3)}
+		v := r.Intn(3)
+		if r.Chance(15) {
+			v += 10 // registered without a node ID
+		}
+		if r.Chance(30) {
+			v += 20 // other tagged addresses
+		}
+		if r.Chance(25) && !localityWritable {
+			v += 40 // a locality (the model describes the store as it is: see localityWritable)
+		}
+		return op{kind: "dnode", val: v}
 	case x < 82:
 		return op{kind: "drmnode"}
 	case x < 90:
@@ -1525,17 +2028,17 @@ func (w *world) finishCase() {
 func randomCase(run *hx.Run, r *hx.RNG, maxOps int) {
 	var w *world
 	if r.Chance(25) {
-		w = newWorldFull(run, 1+r.Intn(2), hx.Pick(r, []string{"", "cfgtok"}), hx.Pick(r, []string{"", "usertok", "t1"}), false, "agent-token", time.Hour)
+		w = newWorldFull(run, 1+r.Intn(2)+20*r.Intn(2), hx.Pick(r, []string{"", "cfgtok"}), hx.Pick(r, []string{"", "usertok", "t1"}), false, "agent-token", time.Hour)
 		run.Tag("case:deferred-check-output(CheckUpdateInterval>0)")
 	} else if r.Chance(35) {
 		agentTok := "agent-token"
 		if r.Chance(25) {
 			agentTok = "weak-agent"
 		}
-		w = newWorldACL(run, 1+r.Intn(2), hx.Pick(r, []string{"", "cfgtok"}), hx.Pick(r, []string{"", "usertok", "t1", "t2"}), true, agentTok)
+		w = newWorldACL(run, 1+r.Intn(2)+20*r.Intn(2), hx.Pick(r, []string{"", "cfgtok"}), hx.Pick(r, []string{"", "usertok", "t1", "t2"}), true, agentTok)
 		run.Tag("case:real-acl-policies:" + agentTok)
 	} else {
-		w = newWorld(run, 1+r.Intn(2), hx.Pick(r, []string{"", "cfgtok"}), hx.Pick(r, []string{"", "usertok", "t1"}))
+		w = newWorld(run, 1+r.Intn(2)+20*r.Intn(2), hx.Pick(r, []string{"", "cfgtok"}), hx.Pick(r, []string{"", "usertok", "t1"}))
 		run.Tag("case:injected-outcomes-only")
 	}
 	n := 2 + r.Intn(maxOps)
@@ -1710,6 +2213,10 @@ func scripted(run *hx.Run) {
 	for i := 0; i < 2; i++ {
 		realTimeDefer(run)
 	}
+	// 14. (monitor only) a service whose Locality alone changed
+	svcLocalityWitness(run)
+	// 13. (monitor only) the catalog's copy of the node differs from the agent's in its Locality only
+	nodeLocalityWitness(run)
 	// 8. (monitor only) ids that differ only in case: the catalog lower-cases ids in its index keys, the
 	//    agent's maps do not. Known finding; outside the model's assumptions, so no lines are compared.
 	{
@@ -1730,6 +2237,24 @@ func scripted(run *hx.Run) {
 		run.Case("case-fold-foreign-variant", true)
 		run.Tag("case-fold-scenario(monitor-only)")
 	}
+}
+
+// nodeLocalityWitness: somebody registered the agent's node with a locality the agent does not have
+// (the same happens the other way round, and when the agent's configured locality changes): every
+// full sync finds node info out of sync and re-sends it, Catalog.Register succeeds, and the store
+// drops the write because Node.IsSame does not look at Locality. Side finding (tagged, not a
+// violation); the lines are compared with the model, which reproduces it.
+func nodeLocalityWitness(run *hx.Run) {
+	w := newWorld(run, 1, "", "")
+	w.silent = localityWritable // compared with the model as long as the store behaves as modelled
+	w.exec(op{kind: "addsvc", id: "web", sd: svcDef{name: "web", port: 80}})
+	w.exec(op{kind: "full"})
+	w.exec(op{kind: "dnode", val: 42}) // other meta and a locality ...
+	w.exec(op{kind: "dnode", val: 41}) // ... meta put back: only the locality differs now
+	w.exec(op{kind: "full"})
+	w.exec(op{kind: "full"})
+	run.Tag("scripted:node-locality-only-drift")
+	run.Case("node-locality-only-drift", true)
 }
 
 func realTimeDefer(run *hx.Run) {
@@ -1863,11 +2388,194 @@ func aeCases(run *hx.Run) {
 	run.Case("ae-fsm", true)
 }
 
+// ---------------------------------------------------------------- ae: the real Run loop (monitor only)
+
+// aeRec is a recording SyncState. Everything it records happens on the goroutine of the state
+// machine, in order; the assertions are about that order (never about how fast anything happens —
+// "eventually" waits use a deadline of two minutes and only fail when nothing happens at all).
+type aeRec struct {
+	mu       sync.Mutex
+	seq      []string // "full:ok" "full:err" "partial"
+	fullErr  error
+	syncer   *ae.StateSyncer
+	pauseAt  int  // pause (from inside the callback) when len(seq) reaches this value; 0 = never
+	paused   bool // Pause() was called on the state-machine goroutine and Resume() not yet requested
+	inPaused []string
+}
+
+func (a *aeRec) record(what string) {
+	a.mu.Lock()
+	defer a.mu.Unlock()
+	if a.paused {
+		a.inPaused = append(a.inPaused, what)
+	}
+	a.seq = append(a.seq, what)
+	if a.pauseAt != 0 && len(a.seq) >= a.pauseAt && !a.paused {
+		a.syncer.Pause()
+		a.paused = true
+		a.pauseAt = 0
+	}
+}
+func (a *aeRec) SyncFull() error {
+	a.mu.Lock()
+	err := a.fullErr
+	a.mu.Unlock()
+	if err != nil {
+		a.record("full:err")
+	} else {
+		a.record("full:ok")
+	}
+	return err
+}
+func (a *aeRec) SyncChanges() error { a.record("partial"); return nil }
+func (a *aeRec) snapshot() []string {
+	a.mu.Lock()
+	defer a.mu.Unlock()
+	return append([]string(nil), a.seq...)
+}
+
+func aeRunLoop(run *hx.Run) {
+	const patience = 2 * time.Minute
+	rec := &aeRec{fullErr: errors.New("boom")}
+	shutdown := make(chan struct{})
+	s := ae.VerifNewSyncer(rec, 20*time.Millisecond, shutdown)
+	rec.syncer = s
+	done := make(chan struct{})
+	go func() { defer close(done); s.Run() }()
+	viol := func(sig, desc string) { run.Violate("ae:"+sig, desc, rec.snapshot()) }
+	eventually := func(cond func(seq []string) bool) bool {
+		for dl := time.Now().Add(patience); time.Now().Before(dl); time.Sleep(time.Millisecond) {
+			if cond(rec.snapshot()) {
+				return true
+			}
+		}
+		return false
+	}
+	count := func(seq []string, what string) (n int) {
+		for _, x := range seq {
+			if x == what {
+				n++
+			}
+		}
+		return
+	}
+	stop := func() {
+		close(shutdown)
+		select {
+		case <-done:
+		case <-time.After(patience):
+			viol("run-does-not-stop-on-shutdown", "StateSyncer.Run did not return after ShutdownCh was closed")
+		}
+	}
+	// 1. failing full syncs are retried as full syncs; change notifications meanwhile run no partial sync
+	s.SyncChanges.Trigger()
+	if !eventually(func(seq []string) bool { return count(seq, "full:err") >= 3 }) {
+		viol("failed-full-sync-not-retried", "a failing full sync was not retried (fewer than three attempts)")
+		stop()
+		return
+	}
+	s.SyncChanges.Trigger()
+	rec.mu.Lock()
+	rec.fullErr = nil
+	rec.mu.Unlock()
+	if !eventually(func(seq []string) bool { return count(seq, "full:ok") >= 1 }) {
+		viol("failed-full-sync-not-retried", "no full sync after the failures stopped")
+		stop()
+		return
+	}
+	// 2. once a full sync succeeded a change notification runs a partial sync; the interval timer keeps
+	//    running full syncs
+	s.SyncChanges.Trigger()
+	if !eventually(func(seq []string) bool { return count(seq, "partial") >= 1 }) {
+		viol("change-notification-runs-no-partial-sync", "SyncChanges.Trigger() after a successful full sync ran no partial sync")
+	}
+	n0 := count(rec.snapshot(), "full:ok")
+	if !eventually(func(seq []string) bool { return count(seq, "full:ok") >= n0+2 }) {
+		viol("no-periodic-full-sync", "the interval timer ran no further full syncs")
+	}
+	// 3. pause from inside a sync callback (so the pause is ordered before every later step of the state
+	//    machine): no sync may run until Resume; Resume restarts syncing
+	rec.mu.Lock()
+	rec.pauseAt = len(rec.seq) + 1
+	rec.mu.Unlock()
+	s.SyncChanges.Trigger()
+	if !eventually(func([]string) bool { rec.mu.Lock(); defer rec.mu.Unlock(); return rec.paused }) {
+		viol("no-periodic-full-sync", "no sync ran at all while waiting to pause")
+		stop()
+		return
+	}
+	s.SyncChanges.Trigger()
+	s.SyncFull.Trigger()
+	time.Sleep(100 * time.Millisecond) // an opportunity for a wrong sync, nothing is asserted about time
+	rec.mu.Lock()
+	rec.paused = false
+	ran := append([]string(nil), rec.inPaused...)
+	n1 := len(rec.seq)
+	rec.mu.Unlock()
+	if len(ran) > 0 {
+		viol("sync-ran-while-paused", fmt.Sprintf("syncs ran between Pause and Resume: %v", ran))
+	}
+	if !s.Resume() {
+		viol("resume-does-not-report-restart", "Resume() of the only pause returned false")
+	}
+	if !eventually(func(seq []string) bool { return len(seq) > n1 }) {
+		viol("resume-does-not-restart-syncing", "no sync ran after Resume")
+	}
+	// 3b. a second pause with no notification in between: Resume itself must ask for a partial sync
+	//     (changes made while paused triggered nothing)
+	rec.mu.Lock()
+	rec.pauseAt = len(rec.seq) + 1
+	rec.mu.Unlock()
+	if !eventually(func([]string) bool { rec.mu.Lock(); defer rec.mu.Unlock(); return rec.paused }) {
+		viol("no-periodic-full-sync", "no sync ran at all while waiting to pause again")
+		stop()
+		return
+	}
+	time.Sleep(50 * time.Millisecond)
+	rec.mu.Lock()
+	rec.paused = false
+	ran = append([]string(nil), rec.inPaused...)
+	rec.mu.Unlock()
+	if len(ran) > 0 {
+		viol("sync-ran-while-paused", fmt.Sprintf("syncs ran between Pause and Resume: %v", ran))
+	}
+	np := count(rec.snapshot(), "partial")
+	s.Resume()
+	if !eventually(func(seq []string) bool { return count(seq, "partial") > np }) {
+		viol("resume-does-not-trigger-a-partial-sync", "no partial sync ran after Resume (changes made while paused are never pushed until the next full sync)")
+	}
+	// 4. a server joined: SyncFull.Trigger() runs a full sync
+	n2 := count(rec.snapshot(), "full:ok")
+	s.SyncFull.Trigger()
+	if !eventually(func(seq []string) bool { return count(seq, "full:ok") > n2 }) {
+		viol("full-sync-trigger-ignored", "SyncFull.Trigger() ran no full sync")
+	}
+	stop()
+	// order: the call that follows a failed full sync is a full sync (never a partial one)
+	seq := rec.snapshot()
+	for i := 0; i+1 < len(seq); i++ {
+		if seq[i] == "full:err" && seq[i+1] == "partial" {
+			viol("partial-sync-while-full-sync-retry-pending", "a partial sync ran right after a failed full sync")
+			break
+		}
+	}
+	if len(seq) > 0 && seq[0] != "full:err" {
+		viol("first-sync-is-not-a-full-sync", "Run started with "+seq[0])
+	}
+	run.Tag("ae:real-run-loop(monitor-only)")
+	run.Case("ae-run-loop", true)
+}
+
 func main() {
+	localityWritable = probeLocality()
+	svcLocalityWritable = probeSvcLocality()
 	run := hx.Start()
 	run.Rule = "after every local change / drift / sync operation the agent's complete local state (flags included) and the node's catalog entries are printed; the Lean model CV.AE must print the same line"
+	run.Tag(fmt.Sprintf("probe:store-writes-locality-only-node-changes:%v", localityWritable))
+	run.Tag(fmt.Sprintf("probe:store-writes-locality-only-service-changes:%v", svcLocalityWritable))
 	scripted(run)
 	aeCases(run)
+	aeRunLoop(run)
 	exhaustive(run)
 	n := run.Scale(700, 3000)
 	for i := 0; i < n; i++ {
